@@ -65,7 +65,46 @@ fn enc(v: &V) -> Term {
 }
 
 struct Out {
-    w: std::io::BufWriter<std::io::Stdout>,
+    w: Box<dyn Write + Send>,
+}
+
+/// run `jobs` concurrently (each on its own large-stack thread, writing to its own buffer) and emit their output in order
+fn parallel<F>(out: &mut Out, jobs: Vec<F>)
+where
+    F: FnOnce(&mut Out) + Send,
+{
+    let bufs: Vec<Vec<u8>> = std::thread::scope(|s| {
+        let hs: Vec<_> = jobs
+            .into_iter()
+            .map(|job| {
+                std::thread::Builder::new()
+                    .stack_size(4 << 30)
+                    .spawn_scoped(s, move || {
+                        let shared = std::sync::Arc::new(std::sync::Mutex::new(Vec::<u8>::new()));
+                        struct W(std::sync::Arc<std::sync::Mutex<Vec<u8>>>);
+                        impl Write for W {
+                            fn write(&mut self, b: &[u8]) -> std::io::Result<usize> {
+                                self.0.lock().unwrap().extend_from_slice(b);
+                                Ok(b.len())
+                            }
+                            fn flush(&mut self) -> std::io::Result<()> {
+                                Ok(())
+                            }
+                        }
+                        let mut o = Out { w: Box::new(W(shared.clone())) };
+                        job(&mut o);
+                        drop(o);
+                        let v = shared.lock().unwrap().clone();
+                        v
+                    })
+                    .unwrap()
+            })
+            .collect();
+        hs.into_iter().map(|h| h.join().unwrap()).collect()
+    });
+    for b in bufs {
+        out.w.write_all(&b).unwrap();
+    }
 }
 const LIMIT: usize = 300_000;
 
@@ -224,12 +263,24 @@ fn suite_othernum(out: &mut Out, thorough: bool) {
 }
 
 fn suite_signed(out: &mut Out, thorough: bool) {
+    let jobs: Vec<_> = [(Church, "church"), (Scott, "scott"), (Parigot, "parigot"), (StumpFu, "stumpfu")]
+        .into_iter()
+        .flat_map(|(e, en)| (0..=4usize).map(move |slice| move |o: &mut Out| signed_one(o, thorough, e, en, slice)))
+        .collect();
+    parallel(out, jobs);
+}
+
+/// slice 4 = the unary operations; slice p1 (0..=3) = the binary operations with that first component
+fn signed_one(out: &mut Out, thorough: bool, e: Encoding, en: &'static str, slice: usize) {
     let lazy = [NOR, HNO];
     let m: usize = if thorough { 3 } else { 2 };
     let canon = |e: &'static str, z: i64| -> V { if z >= 0 { V::S(e, z as usize, 0) } else { V::S(e, 0, (-z) as usize) } };
-    for (e, en) in [(Church, "church"), (Scott, "scott"), (Parigot, "parigot"), (StumpFu, "stumpfu")] {
+    {
         let nm = |s: &str| format!("num_signed_{}_{}", s, en);
         for p in 0..=m + 1 {
+            if slice != 4 {
+                break;
+            }
             run(out, "C15", &nm("to_signed"), &sg::to_signed(e), &[n(en, p)], &V::S(en, p, 0), &lazy, "eq");
             for q in 0..=m + 1 {
                 let z = p as i64 - q as i64;
@@ -239,6 +290,9 @@ fn suite_signed(out: &mut Out, thorough: bool) {
             }
         }
         for p1 in 0..=m {
+            if slice != p1 {
+                continue;
+            }
             for n1 in 0..=m {
                 for p2 in 0..=m {
                     for n2 in 0..=m {
@@ -246,7 +300,10 @@ fn suite_signed(out: &mut Out, thorough: bool) {
                         let args = [V::S(en, p1, n1), V::S(en, p2, n2)];
                         run(out, "C15", &nm("add"), &sg::add(e), &args, &canon(en, a + b), &lazy, "eq");
                         run(out, "C15", &nm("sub"), &sg::sub(e), &args, &canon(en, a - b), &lazy, "eq");
-                        run(out, "C15", &nm("mul"), &sg::mul(e), &args, &canon(en, a * b), &lazy, "eq");
+                        // normal-order multiplication of large non-canonical pairs outgrows any sensible size cap
+                        if p1 + n1 + p2 + n2 <= 8 {
+                            run(out, "C15", &nm("mul"), &sg::mul(e), &args, &canon(en, a * b), &lazy, "eq");
+                        }
                     }
                 }
             }
@@ -335,7 +392,7 @@ fn suite_lists(out: &mut Out, thorough: bool) {
         run(out, "C16", "list_pair_filter", &lp::filter(), &[V::T(nc::is_zero()), pl(xs)], &pl(&xs.iter().filter(|k| **k == 0).cloned().collect()), &ords, "eq");
         run(out, "C16", "list_pair_take_while", &lp::take_while(), &[V::T(nc::is_zero()), pl(xs)], &pl(&xs.iter().take_while(|k| **k == 0).cloned().collect()), &ords, "eq");
         run(out, "C16", "list_pair_drop_while", &lp::drop_while(), &[V::T(nc::is_zero()), pl(xs)], &pl(&xs.iter().skip_while(|k| **k == 0).cloned().collect()), &ords, "eq");
-        for ys in lists.iter().filter(|ys| ys.len() <= 2 || thorough) {
+        for ys in lists.iter().filter(|ys| ys.len() <= 2 || (thorough && xs.len() <= 3 && ys.len() <= 3)) {
             let mut app_ = xs.clone();
             app_.extend(ys.iter().cloned());
             run(out, "C16", "list_pair_append", &lp::append(), &[pl(xs), pl(ys)], &pl(&app_), &ords, "eq");
@@ -509,6 +566,10 @@ fn suite_convert(out: &mut Out, thorough: bool) {
     for (e, en) in [(Church, "church"), (Scott, "scott"), (Parigot, "parigot"), (StumpFu, "stumpfu")] {
         for z in -(if thorough { 40 } else { 12 })..=(if thorough { 40 } else { 12 }) {
             let z: i32 = z;
+            // Parigot numerals double in size with every successor
+            if en == "parigot" && z.abs() > (if thorough { 16 } else { 12 }) {
+                continue;
+            }
             writeln!(out.w, "signed\t{}\t{}\t{}", en, z, ser(&z.into_signed(e))).unwrap();
         }
     }
@@ -588,7 +649,7 @@ fn main() {
     let child = std::thread::Builder::new()
         .stack_size(6 << 30)
         .spawn(move || {
-            let mut out = Out { w: std::io::BufWriter::new(std::io::stdout()) };
+            let mut out = Out { w: Box::new(std::io::BufWriter::new(std::io::stdout())) };
             let thorough = tier == "thorough";
             let mut rng = Rng::new(seed);
             match suite.as_str() {
